@@ -62,10 +62,12 @@ def run_property(prop, tier, seed):
         if info["cases"]:
             mism = os.path.join(vlib.WORK, "%s.%s.mismatch.ndjson" % (prop, info["cfg"]))
             r = vlib.harness(["replay", cases, mism])
-            entry["replayed"] = r["cases"]
-            entry["mismatches"] = r["mismatches"]
-            cov["cases_replayed"] += r["cases"]
-            cov["traces_validated_against_impl"] += r["cases"]
+            entry["replayed"] = r.get("cases", 0)
+            entry["mismatches"] = r.get("mismatches", 0)
+            cov["cases_replayed"] += r.get("cases", 0)
+            cov["traces_validated_against_impl"] += r.get("cases", 0)
+            if not r and os.path.getsize(mism + ".died") == 0:
+                raise vlib.ToolError("harness replay produced no summary and no died record")
             ls = vlib.read_lines(cases)
             if ls:
                 cov["samples"].append(_short(json.loads(ls[len(ls) // 2])))
@@ -73,7 +75,10 @@ def run_property(prop, tier, seed):
                 ops = [json.loads(x) for x in vlib.read_lines(mism + ".died")]
                 violations.append(("A-%s-died" % info["cfg"], ops, "crate died while replaying a specification case"))
             for k, l in enumerate(vlib.read_lines(mism)[:3]):
-                rec = json.loads(l)
+                try:
+                    rec = json.loads(l)
+                except ValueError:      # the harness died while writing this record; the died record is the finding
+                    continue
                 ops = [json.loads(x) for x in rec["session"]]
                 violations.append(("A-%s-%d" % (info["cfg"], k), ops,
                                    {"expected": rec["case"].get("exp"), "got": rec["got"]}))
@@ -91,6 +96,15 @@ def run_property(prop, tier, seed):
         path = os.path.join(vlib.WORK, "%s.%s.%d.trace.ndjson" % (prop, name, sd))
         vlib.harness(["gen", name, sd, n, path], env_extra=rc.get("env"))
         died = os.path.getsize(path + ".died") > 0
+        if died:        # the unflushed tail of the event file may be cut mid-line: keep complete lines only
+            good = []
+            for ln in open(path, errors="replace"):
+                try:
+                    json.loads(ln)
+                    good.append(ln if ln.endswith("\n") else ln + "\n")
+                except ValueError:
+                    break
+            open(path, "w").writelines(good)
         r = vlib.validate_trace(path)
         r["family"] = name
         r["seed"] = sd
